@@ -237,4 +237,27 @@ def cgHistory (o : CGObj α) : List (CGCall α) → CGObj α × List (CGState α
     let rest := cgHistory r.1 cs
     (rest.1, r.2 :: rest.2)
 
+/-- a history in which some calls RAISE before returning (`none`: arguments that do not fit, a non-finite entry, …):
+the caller catches the exception and goes on with the same object -/
+def cgHistoryE (o : CGObj α) : List (Option (CGCall α)) → CGObj α × List (Option (CGState α))
+  | [] => (o, [])
+  | none :: cs => let rest := cgHistoryE o cs; (rest.1, none :: rest.2)
+  | some c :: cs =>
+    let r := cgCall o c
+    let rest := cgHistoryE r.1 cs
+    (rest.1, some r.2 :: rest.2)
+
+/-- two solver objects (e.g. an object and its `deepcopy` / unpickled copy) used alternately: `true` = first object -/
+def cgHistory2 (o1 o2 : CGObj α) : List (Bool × CGCall α) → (CGObj α × CGObj α) × List (CGState α)
+  | [] => ((o1, o2), [])
+  | (w, c) :: cs =>
+    if w then
+      let r := cgCall o1 c
+      let rest := cgHistory2 r.1 o2 cs
+      (rest.1, r.2 :: rest.2)
+    else
+      let r := cgCall o2 c
+      let rest := cgHistory2 o1 r.1 cs
+      (rest.1, r.2 :: rest.2)
+
 end PP.LinSolve
